@@ -1,4 +1,5 @@
 import MuduoVerif.Proofs.ConnLifeTrace
+import MuduoVerif.Proofs.ConnProgress
 /-!
 # C02 — each connection gets exactly one UP, then messages, then exactly one DOWN; clean destruction
 
@@ -148,6 +149,29 @@ theorem no_leak (c : Conn) (a : List Src) :
         cases hal : (drainPending (List.foldl dispatch c a)).alive
         · rfl
         · simp [hal, ho, hq] at hc
+
+/-- **no_leak, progress form**: a connection its owner has released (close callback ran, or the
+owner was destroyed) is destroyed by the very next loop iteration, whatever events arrive in it:
+object freed, descriptor closed exactly once, DOWN reported exactly once, nothing aborts -/
+theorem released_is_destroyed (c0 : Conn) (h0 : Fresh c0) (ins : List Input) (hne : ∀ i ∈ ins, i.notEstablish)
+    (a : List Src) (ho : (reach c0 ins).owner = false) (ha : (reach c0 ins).alive = true) :
+    (iter (reach c0 ins) a).alive = false ∧
+    cnt isCloseEv (iter (reach c0 ins) a).trace = 1 ∧ cnt isDownEv (iter (reach c0 ins) a).trace = 1 ∧
+    cnt isBadEv (iter (reach c0 ins) a).trace = 0 :=
+  ⟨Conn.released_is_destroyed _ a (life c0 h0 ins hne) ho ha,
+   Conn.released_closes_descriptor _ a (life c0 h0 ins hne) ho ha⟩
+
+/-- `forceClose()` on any thread, at any moment of any history: two loop iterations later (whatever
+events arrive in them) the connection object is destroyed, with exactly one DOWN, exactly one
+`close` of the descriptor and no abort -/
+theorem forceClose_destroys (c0 : Conn) (h0 : Fresh c0) (ins : List Input) (hne : ∀ i ∈ ins, i.notEstablish)
+    (f : Bool) (a1 a2 : List Src) :
+    (iter (iter (act (reach c0 ins) f .forceClose) a1) a2).alive = false ∧
+    cnt isDownEv (iter (iter (act (reach c0 ins) f .forceClose) a1) a2).trace = 1 ∧
+    cnt isCloseEv (iter (iter (act (reach c0 ins) f .forceClose) a1) a2).trace = 1 ∧
+    cnt isBadEv (iter (iter (act (reach c0 ins) f .forceClose) a1) a2).trace = 0 :=
+  ⟨Conn.forceClose_destroys _ f a1 a2 (life c0 h0 ins hne) (reach_downRel c0 h0 ins hne),
+   Conn.forceClose_closes_descriptor _ f a1 a2 (life c0 h0 ins hne) (reach_downRel c0 h0 ins hne)⟩
 
 /-- operations issued from other threads never run a callback on the caller's thread: they only
 flip the state word and queue work for the loop (affinity of callbacks to the loop thread) -/
